@@ -7,6 +7,7 @@ import (
 	"fmt"
 	"hash/fnv"
 	"math/rand"
+	"os"
 	"runtime"
 	"runtime/pprof"
 	"sort"
@@ -212,6 +213,7 @@ func (s *Sim) Max(name string, v int64) {
 }
 
 var logRing = 6000
+var logStderr bool
 
 // Logf appends to the in-memory log ring; nothing is written during a run.
 func (s *Sim) Logf(f string, a ...any) {
@@ -219,6 +221,11 @@ func (s *Sim) Logf(f string, a ...any) {
 	if s.logDraws && len(s.drawLog)+2 <= cap(s.drawLog) {
 		d, t := rtDraws()
 		s.drawLog = append(s.drawLog, d, t)
+	}
+	if logStderr {
+		// diagnostics only (a run that never ends leaves no result to read
+		// the log from); writing perturbs the schedule
+		os.Stderr.WriteString(l + "\n")
 	}
 	s.mu.Lock()
 	if len(s.logs) < logRing {
@@ -307,6 +314,7 @@ func Run(t *testing.T, p *plan.Plan, body func(s *Sim)) *plan.Result {
 	if v := p.Knob("logring", 0); v > 0 {
 		logRing = int(v)
 	}
+	logStderr = p.Knob("logstderr", 0) != 0
 	wall := time.Now()
 	func() {
 		defer func() {
@@ -636,7 +644,6 @@ func (s *Sim) drive() {
 	burst := s.P.Knob("burst", 0)
 	for {
 		synctest.Wait()
-		rtSpinReset()
 		select {
 		case <-s.stop:
 			return
@@ -661,6 +668,12 @@ func (s *Sim) drive() {
 			}
 		}
 		if did > 0 {
+			// the spin guard (VerifYield) counts yields since the driver
+			// last DID something. A wake-up that found nothing due - the
+			// guard's own sleep makes the bubble idle - does not reset it:
+			// a loop that spins until an event seconds away would otherwise
+			// need 200000 yields per simulated microsecond.
+			rtSpinReset()
 			continue
 		}
 		next := s.nextDue(now)
